@@ -8,6 +8,7 @@ import (
 	"os"
 	"sort"
 	"sync"
+	"sync/atomic"
 	"time"
 
 	"github.com/nspcc-dev/dbft"
@@ -85,6 +86,8 @@ type SrvPlan struct {
 	// Late: transactions that reach exactly one validator a few milliseconds before the next proposal is due, so that the
 	// other validators have to fetch them when they get the proposal (Server.RequestTx, getdata, the consensus callback)
 	Late []SrvLateTx `json:"late,omitempty"`
+	// Rivals: see SrvRival
+	Rivals []SrvRival `json:"rivals,omitempty"`
 	// NoCompress: node (index+1) that runs with P2P.DisableCompression; Direct: nodes whose RPC server relays a
 	// submitted transaction directly (RPC.DirectRelay: the transaction itself is broadcast, not its hash)
 	NoCompress int    `json:"no_compress,omitempty"`
@@ -198,6 +201,12 @@ func drawSrv(rt *rapid.T, p *Plan, prop, tier string) *Plan {
 			j.KeepLatest = rapid.Bool().Draw(rt, "srv_jkl")
 			sp.StateSync = true
 		}
+		// one joiner in six starts further behind than the block queue reaches (bqueue.DefaultCacheSize is 32 and a
+		// block request window payload.MaxHashesCount = 8 under the build tag): the windowed, partly random block
+		// requests of Server.requestBlocks and the queue's refusal of blocks beyond its capacity get work to do
+		if i == 0 && rapid.IntRange(0, 5).Draw(rt, "srv_jfar") == 0 {
+			j.AtMS = rapid.IntRange(46, 60).Draw(rt, "srv_jfarat")*1000 + 137
+		}
 		sp.Joiners = append(sp.Joiners, j)
 		last = max(last, j.AtMS+j.RestartMS)
 	}
@@ -237,6 +246,13 @@ func drawSrv(rt *rapid.T, p *Plan, prop, tier string) *Plan {
 	for i := 0; i < nl; i++ {
 		sp.Late = append(sp.Late, SrvLateTx{Op: Op{Kind: OpTransferGAS, A: rapid.IntRange(0, numAccounts-1).Draw(rt, "srv_la"), B: rapid.IntRange(0, numAccounts-1).Draw(rt, "srv_lb"), N: int64(1 + i), X: 1},
 			Node: rapid.IntRange(0, sp.Validators-1).Draw(rt, "srv_lnode"), BeforeMS: rapid.IntRange(1, 150).Draw(rt, "srv_lbefore"), Height: rapid.IntRange(2, 16).Draw(rt, "srv_lheight")})
+	}
+	if prop != "C20" && sp.DurationMS >= 17000 && rapid.IntRange(0, 2).Draw(rt, "srv_rivals") == 0 {
+		nr := rapid.IntRange(1, 2).Draw(rt, "srv_nrivals")
+		for i := 0; i < nr; i++ {
+			sp.Rivals = append(sp.Rivals, SrvRival{AtMS: rapid.IntRange(4500, sp.DurationMS-11500).Draw(rt, "srv_rivalat"),
+				MaskA: uint8(rapid.IntRange(1, 1<<uint(sp.Validators)-2).Draw(rt, "srv_rivalmask")), From: rapid.IntRange(0, numAccounts-1).Draw(rt, "srv_rivalfrom")})
+		}
 	}
 	if rapid.IntRange(0, 3).Draw(rt, "srv_wirecfg") == 3 {
 		sp.NoCompress = rapid.IntRange(0, total0).Draw(rt, "srv_nocompress")
@@ -286,6 +302,7 @@ type srvSim struct {
 	wirePkts  int
 	wireBytes int
 	topAt     map[uint32]time.Duration
+	rivals    []rivalPair
 }
 
 func (s *srvSim) now() time.Duration { return time.Since(s.start) }
@@ -837,6 +854,16 @@ func (r *run) runSrv() {
 		sort.Slice(keys, func(i, j int) bool { return keys[i] < keys[j] })
 	}
 	defer func() { dbft.VerifCacheOrder = nil }()
+	// the random choice among the block request windows (a node far behind): a fixed function of the plan and of how
+	// many choices have been made so far in this run
+	var nChoices atomic.Uint64
+	network.VerifIntN = func(n int) int {
+		return int(splitmix(sp.TailSeed^0x77696e646f77^nChoices.Add(1)<<20) % uint64(n))
+	}
+	defer func() {
+		network.VerifIntN = nil
+		r.out.Probes["block_request_window_chosen_at_random"] += int(nChoices.Load())
+	}()
 	if netDebug {
 		r.log = sim.NewLog(3000000)
 		var dbgAt int64
@@ -912,6 +939,7 @@ func (r *run) runSrv() {
 		t := sp.Txs[i]
 		ns.at(time.Duration(t.AtMS)*time.Millisecond, func() { ns.clientTx(t) })
 	}
+	s.scheduleRivals()
 	for ji := range sp.Joiners {
 		j := sp.Joiners[ji]
 		idx := total0 + ji
